@@ -1,7 +1,914 @@
 package main
 
-// replayOnRealCode turns a solver model into an in-package Go test and runs it
-// against the real code with `go test -overlay`.
+// Counterexample replay: a solver model of a failed obligation is turned into an
+// in-package Go test that calls the real function with the model's arguments and
+// (for ensures clauses) evaluates the violated clause concretely. The test is
+// injected with `go test -overlay` so nothing is written into /repo.
+
+import (
+	"bytes"
+	"context"
+	"encoding/json"
+	"fmt"
+	"go/types"
+	"math/big"
+	"os"
+	"os/exec"
+	"path/filepath"
+	"regexp"
+	"sort"
+	"strings"
+	"time"
+
+	"golang.org/x/tools/go/ssa"
+)
+
+const maxReplayElems = 96
+
+type modelVals map[string]string // term -> value (raw smt)
+
+func parseSMTValue(v string) (*big.Int, bool) {
+	v = strings.TrimSpace(v)
+	switch {
+	case strings.HasPrefix(v, "#x"):
+		n, ok := new(big.Int).SetString(v[2:], 16)
+		return n, ok
+	case strings.HasPrefix(v, "#b"):
+		n, ok := new(big.Int).SetString(v[2:], 2)
+		return n, ok
+	case strings.HasPrefix(v, "(_ bv"):
+		if x, _, ok := bvLit(v); ok {
+			return x, true
+		}
+	case strings.HasPrefix(v, "(- "):
+		n, ok := new(big.Int).SetString(strings.TrimSuffix(strings.TrimSpace(v[3:]), ")"), 10)
+		if ok {
+			return n.Neg(n), true
+		}
+	case v == "true":
+		return big.NewInt(1), true
+	case v == "false":
+		return big.NewInt(0), true
+	default:
+		n, ok := new(big.Int).SetString(v, 10)
+		return n, ok
+	}
+	return nil, false
+}
+
+// getValues asks the solver that found the counterexample for the values of terms.
+// modelTiers: progressively weaker shape constraints on slice parameters, smallest models first.
+func modelTiers(vc *VC) [][]string {
+	var offs, lens, caps []string
+	for name, sym := range vc.inputs {
+		switch {
+		case strings.HasSuffix(name, ".off"):
+			offs = append(offs, sym)
+		case strings.HasSuffix(name, ".len"):
+			lens = append(lens, sym)
+			caps = append(caps, vc.inputs[strings.TrimSuffix(name, ".len")+".cap"])
+		}
+	}
+	if len(lens) == 0 {
+		return [][]string{nil}
+	}
+	var tiers [][]string
+	for _, bound := range []int64{2, 4, 8, 16, 64} {
+		var t []string
+		for _, o := range offs {
+			t = append(t, eq(o, i64(0)))
+		}
+		for i, l := range lens {
+			t = append(t, sx("bvsle", l, i64(bound)), eq(caps[i], l))
+		}
+		tiers = append(tiers, t)
+	}
+	var t2 []string
+	for _, o := range offs {
+		t2 = append(t2, eq(o, i64(0)))
+	}
+	for i, l := range lens {
+		t2 = append(t2, sx("bvsle", l, i64(maxReplayElems)), sx("bvsle", caps[i], i64(4096)))
+	}
+	return append(tiers, t2, nil)
+}
+
+func getValuesWith(vc *VC, o *Obligation, terms []string, dir string, extra []string) (modelVals, string) {
+	if len(terms) == 0 {
+		return modelVals{}, ""
+	}
+	script := vc.scriptFor(o)
+	var spec solverSpec
+	for _, s := range solvers {
+		if s.name == o.Solver {
+			spec = s
+		}
+	}
+	if spec.name == "" {
+		spec = solvers[0]
+	}
+	body := spec.pre
+	if spec.name == "cvc5" {
+		body = "(set-option :produce-models true)\n" + body
+	}
+	script = strings.TrimSuffix(script, "(check-sat)\n")
+	for _, x := range extra {
+		script += "(assert " + x + ")\n"
+	}
+	script += "(check-sat)\n"
+	body += script
+	for _, t := range terms {
+		body += "(get-value (" + t + "))\n"
+	}
+	file := filepath.Join(dir, o.fileBase()+".values."+spec.name+".smt2")
+	os.WriteFile(file, []byte(body), 0o644)
+	ctx, cancel := context.WithTimeout(context.Background(), 40*time.Second)
+	defer cancel()
+	argv := spec.argv(file, 30)
+	cmd := exec.CommandContext(ctx, argv[0], argv[1:]...)
+	var out bytes.Buffer
+	cmd.Stdout = &out
+	cmd.Stderr = &out
+	cmd.Run()
+	lines := strings.Split(out.String(), "\n")
+	mv := modelVals{}
+	if len(lines) == 0 || strings.TrimSpace(lines[0]) != "sat" {
+		return mv, out.String()
+	}
+	// each get-value prints ((term value)) possibly over several lines; join and split by "(("
+	rest := strings.Join(lines[1:], " ")
+	parts := strings.Split(rest, "((")
+	k := 0
+	for _, p := range parts[1:] {
+		p = strings.TrimSpace(p)
+		if k >= len(terms) {
+			break
+		}
+		// p = "<term> <value>))"
+		p = strings.TrimSuffix(strings.TrimSpace(p), "))")
+		t := terms[k]
+		k++
+		idx := strings.Index(p, t)
+		if idx != 0 {
+			// solver may reprint the term differently; take the last token group as value
+			mv[t] = lastSexp(p)
+			continue
+		}
+		mv[t] = strings.TrimSpace(p[len(t):])
+	}
+	return mv, out.String()
+}
+
+func lastSexp(s string) string {
+	s = strings.TrimSpace(s)
+	if s == "" {
+		return s
+	}
+	if s[len(s)-1] != ')' {
+		i := strings.LastIndexAny(s, " \t")
+		return s[i+1:]
+	}
+	depth := 0
+	for i := len(s) - 1; i >= 0; i-- {
+		switch s[i] {
+		case ')':
+			depth++
+		case '(':
+			depth--
+			if depth == 0 {
+				return s[i:]
+			}
+		}
+	}
+	return s
+}
+
+type replayGen struct {
+	e       *Engine
+	vc      *VC
+	o       *Obligation
+	fn      *ssa.Function
+	pkg     *types.Package
+	imports map[string]string // path -> name
+	terms   []string
+	mv      modelVals
+	entryH  func(name, sort string) string
+	fail    string
+}
+
+func (g *replayGen) qual(p *types.Package) string {
+	if p == g.pkg {
+		return ""
+	}
+	g.imports[p.Path()] = p.Name()
+	return p.Name()
+}
+
+func (g *replayGen) typeStr(t types.Type) string { return types.TypeString(t, g.qual) }
+
+// leafTerms enumerates the SMT terms whose values are needed to build a value of type t
+// rooted at the given leaf symbols.
+func (g *replayGen) want(t string) { g.terms = append(g.terms, t) }
+
+func (g *replayGen) val(t string) (*big.Int, bool) {
+	raw, ok := g.mv[t]
+	if !ok {
+		return nil, false
+	}
+	return parseSMTValue(raw)
+}
+
+func signedOf(v *big.Int, w int) *big.Int {
+	if v.Bit(w-1) == 1 {
+		return new(big.Int).Sub(v, new(big.Int).Lsh(big.NewInt(1), uint(w)))
+	}
+	return v
+}
+
+// collect registers the terms needed for value v (phase 1), build constructs Go source (phase 2).
+func (g *replayGen) collect(v Val, depth int) {
+	switch v.K {
+	case KScalar, KArray, KRef:
+		if v.K == KArray {
+			n := v.T.Underlying().(*types.Array).Len()
+			for i := int64(0); i < n && i < maxReplayElems; i++ {
+				g.want(sel(v.S, i64(i)))
+			}
+			return
+		}
+		if b, ok := v.T.Underlying().(*types.Basic); ok && b.Info()&types.IsString != 0 {
+			g.want(sx("s.len", v.S))
+			for i := int64(0); i < 32; i++ {
+				g.want(sx("s.at", v.S, i64(i)))
+			}
+			return
+		}
+		g.want(v.S)
+	case KSlice:
+		g.want(v.Sl[0])
+		g.want(v.Sl[1])
+		g.want(v.Sl[2])
+		g.want(v.Sl[3])
+		et := v.T.Underlying().(*types.Slice).Elem()
+		for _, lf := range leavesOf(et) {
+			if lf.bad {
+				continue
+			}
+			h := g.entryH(elemHeap(et, lf.path), arraySort(sortRef, arraySort(sortIdx, lf.sort)))
+			for i := int64(0); i < maxReplayElems; i++ {
+				g.want(sel(sel(h, v.Sl[0]), bvAdd(v.Sl[1], i64(i))))
+			}
+		}
+	case KStruct:
+		for _, f := range v.F {
+			g.collect(f, depth+1)
+		}
+	case KIface:
+		g.want(v.If[0])
+	}
+}
+
+func (g *replayGen) goValue(v Val) string {
+	t := v.T
+	switch v.K {
+	case KScalar:
+		switch u := t.Underlying().(type) {
+		case *types.Basic:
+			if w, signed, ok := intWidth(u); ok {
+				x, ok := g.val(v.S)
+				if !ok {
+					x = big.NewInt(0)
+				}
+				if signed {
+					x = signedOf(x, w)
+				}
+				return fmt.Sprintf("%s(%s)", g.typeStr(t), x.String())
+			}
+			if u.Info()&types.IsBoolean != 0 {
+				x, _ := g.val(v.S)
+				if x != nil && x.Sign() != 0 {
+					return g.typeStr(t) + "(true)"
+				}
+				return g.typeStr(t) + "(false)"
+			}
+			if u.Info()&types.IsString != 0 {
+				n, ok := g.val(sx("s.len", v.S))
+				if !ok || !n.IsInt64() || n.Int64() > 32 {
+					g.fail = "string parameter longer than replay window"
+					return `""`
+				}
+				var bs []byte
+				for i := int64(0); i < n.Int64(); i++ {
+					c, _ := g.val(sx("s.at", v.S, i64(i)))
+					if c == nil {
+						c = big.NewInt(0)
+					}
+					bs = append(bs, byte(c.Int64()))
+				}
+				return fmt.Sprintf("%s(%q)", g.typeStr(t), string(bs))
+			}
+		}
+	case KArray:
+		at := t.Underlying().(*types.Array)
+		var xs []string
+		w, signed, isInt := isIntType(at.Elem())
+		for i := int64(0); i < at.Len(); i++ {
+			x, ok := g.val(sel(v.S, i64(i)))
+			if !ok || !isInt {
+				x = big.NewInt(0)
+			}
+			if signed {
+				x = signedOf(x, w)
+			}
+			xs = append(xs, x.String())
+		}
+		return fmt.Sprintf("%s{%s}", g.typeStr(t), strings.Join(xs, ", "))
+	case KSlice:
+		st := t.Underlying().(*types.Slice)
+		arr, _ := g.val(v.Sl[0])
+		if arr == nil || arr.Sign() == 0 {
+			return fmt.Sprintf("%s(nil)", g.typeStr(t))
+		}
+		ln, ok1 := g.val(v.Sl[2])
+		cp, ok2 := g.val(v.Sl[3])
+		if !ok1 || !ok2 || !ln.IsInt64() || !cp.IsInt64() || cp.Int64() > 1<<22 {
+			g.fail = "slice too large to replay"
+			return fmt.Sprintf("%s(nil)", g.typeStr(t))
+		}
+		w, signed, isInt := isIntType(st.Elem())
+		if !isInt {
+			g.fail = "slice of non-integer elements: no generic replay"
+			return fmt.Sprintf("%s(nil)", g.typeStr(t))
+		}
+		h := g.entryH(elemHeap(st.Elem(), ""), arraySort(sortRef, arraySort(sortIdx, bvSort(w))))
+		var xs []string
+		n := cp.Int64()
+		if n > maxReplayElems {
+			n = maxReplayElems
+		}
+		for i := int64(0); i < n; i++ {
+			x, ok := g.val(sel(sel(h, v.Sl[0]), bvAdd(v.Sl[1], i64(i))))
+			if !ok {
+				x = big.NewInt(0)
+			}
+			if signed {
+				x = signedOf(x, w)
+			}
+			xs = append(xs, x.String())
+		}
+		return fmt.Sprintf("func() %s { b := make([]%s, %d); copy(b, []%s{%s}); return %s(b[:%d]) }()",
+			g.typeStr(t), g.typeStr(st.Elem()), cp.Int64(), g.typeStr(st.Elem()), strings.Join(xs, ", "), g.typeStr(t), ln.Int64())
+	case KStruct:
+		stt := t.Underlying().(*types.Struct)
+		var xs []string
+		for i, f := range v.F {
+			xs = append(xs, fmt.Sprintf("%s: %s", stt.Field(i).Name(), g.goValue(f)))
+		}
+		return fmt.Sprintf("%s{%s}", g.typeStr(t), strings.Join(xs, ", "))
+	case KIface:
+		tag, _ := g.val(v.If[0])
+		if tag == nil || tag.Sign() == 0 {
+			return "nil"
+		}
+	}
+	g.fail = "parameter of type " + t.String() + " has no generic replay construction"
+	return "nil"
+}
+
+var identRe = regexp.MustCompile(`^[A-Za-z_][A-Za-z0-9_]*$`)
+
 func replayOnRealCode(e *Engine, vc *VC, o *Obligation, dir string) map[string]interface{} {
-	return nil
+	fn := e.funcs[o.Func]
+	if fn == nil || fn.Pkg == nil {
+		return map[string]interface{}{"confirmed": false, "reason": "function not found"}
+	}
+	g := &replayGen{e: e, vc: vc, o: o, fn: fn, pkg: fn.Pkg.Pkg, imports: map[string]string{"fmt": "fmt", "testing": "testing"}}
+	entry := &State{heap: map[string]string{}, epoch: "0"}
+	g.entryH = func(name, srt string) string {
+		if _, ok := vc.heapSorts[name]; !ok {
+			return quote(name + "@0!unused")
+		}
+		return vc.heapGet(entry, name, srt)
+	}
+	// parameter values as symbolic Vals rebuilt from vc.inputs
+	var params []Val
+	for _, p := range fn.Params {
+		ls := leavesOf(p.Type())
+		terms := make([]string, len(ls))
+		okAll := true
+		for i, lf := range ls {
+			t, ok := vc.inputs[p.Name()+lf.path]
+			if !ok {
+				okAll = false
+			}
+			terms[i] = t
+		}
+		if !okAll {
+			return map[string]interface{}{"confirmed": false, "reason": "parameter " + p.Name() + " not representable"}
+		}
+		params = append(params, unflatten(p.Type(), terms))
+	}
+	for _, p := range params {
+		g.collect(p, 0)
+	}
+	// only terms over declared symbols can be queried
+	var terms []string
+	seen := map[string]bool{}
+	for _, t := range g.terms {
+		if strings.Contains(t, "!unused") || seen[t] {
+			continue
+		}
+		seen[t] = true
+		terms = append(terms, t)
+	}
+	var lastRes map[string]interface{}
+	attempts := 0
+	for _, tier := range modelTiers(vc) {
+		mv, raw := getValuesWith(vc, o, terms, dir, tier)
+		if len(mv) == 0 {
+			if lastRes == nil {
+				lastRes = map[string]interface{}{"confirmed": false, "reason": "no model values", "solver_output": truncate(raw, 2000)}
+			}
+			continue
+		}
+		attempts++
+		g.mv = mv
+		g.fail = ""
+		res := g.runReplay(params, dir, attempts)
+		res["attempt"] = attempts
+		lastRes = res
+		if c, _ := res["confirmed"].(bool); c || attempts >= 4 {
+			break
+		}
+	}
+	if lastRes == nil {
+		lastRes = map[string]interface{}{"confirmed": false, "reason": "no model"}
+	}
+	return lastRes
+}
+
+func (g *replayGen) runReplay(params []Val, dir string, attempt int) map[string]interface{} {
+	e, o, fn := g.e, g.o, g.fn
+	var decl []string
+	var argNames []string
+	inputs := map[string]string{}
+	for i, p := range fn.Params {
+		name := p.Name()
+		if !identRe.MatchString(name) || name == "_" {
+			name = fmt.Sprintf("arg%d", i)
+		}
+		name = "v_" + name
+		src := g.goValue(params[i])
+		decl = append(decl, fmt.Sprintf("\t%s := %s", name, src))
+		argNames = append(argNames, name)
+		inputs[p.Name()] = src
+	}
+	if g.fail != "" {
+		return map[string]interface{}{"confirmed": false, "reason": g.fail, "inputs": inputs}
+	}
+	// call expression
+	var call string
+	nres := fn.Signature.Results().Len()
+	var resNames []string
+	for i := 0; i < nres; i++ {
+		resNames = append(resNames, fmt.Sprintf("r%d", i))
+	}
+	if recv := fn.Signature.Recv(); recv != nil {
+		call = fmt.Sprintf("%s.%s(%s)", argNames[0], fn.Name(), strings.Join(argNames[1:], ", "))
+	} else {
+		call = fmt.Sprintf("%s(%s)", fn.Name(), strings.Join(argNames, ", "))
+	}
+	if last := fn.Signature.Params().Len() - 1; fn.Signature.Variadic() && last >= 0 {
+		call = strings.TrimSuffix(call, ")") + "...)"
+	}
+	var body strings.Builder
+	body.WriteString("\tdefer func() {\n\t\tif r := recover(); r != nil {\n\t\t\tfmt.Printf(\"VERIF-REPLAY-PANIC: %v\\n\", r)\n\t\t}\n\t}()\n")
+	body.WriteString(strings.Join(decl, "\n") + "\n")
+	// snapshots for old()
+	for i, p := range fn.Params {
+		if _, ok := p.Type().Underlying().(*types.Slice); ok {
+			fmt.Fprintf(&body, "\told_%s := append(%s(nil), %s...)\n\t_ = old_%s\n", argNames[i], g.typeStr(p.Type()), argNames[i], argNames[i])
+		} else {
+			fmt.Fprintf(&body, "\told_%s := %s\n\t_ = old_%s\n", argNames[i], argNames[i], argNames[i])
+		}
+	}
+	if nres > 0 {
+		fmt.Fprintf(&body, "\t%s := %s\n", strings.Join(resNames, ", "), call)
+		for _, r := range resNames {
+			fmt.Fprintf(&body, "\t_ = %s\n", r)
+		}
+	} else {
+		fmt.Fprintf(&body, "\t%s\n", call)
+	}
+	body.WriteString("\tfmt.Println(\"VERIF-REPLAY-RETURNED\")\n")
+	for i, r := range resNames {
+		fmt.Fprintf(&body, "\tfmt.Printf(\"VERIF-REPLAY-RESULT %d: %%#v\\n\", %s)\n", i, r)
+	}
+	clauseGo := ""
+	if o.Kind == "ensures" {
+		if con := e.cs.Funcs[o.Func]; con != nil {
+			for i, en := range con.Ensures {
+				if strings.HasSuffix(o.Name, fmt.Sprintf("#ensures%d", i+1)) {
+					sc := &specCompiler{g: g, fn: fn, argName: map[string]string{}, res: resNames}
+					for k, p := range fn.Params {
+						sc.argName[p.Name()] = argNames[k]
+					}
+					src, err := sc.compile(en.Expr, false)
+					if err == nil {
+						clauseGo = src
+						fmt.Fprintf(&body, "\tfmt.Printf(\"VERIF-REPLAY-ENSURES: %%v\\n\", %s)\n", src)
+					} else {
+						clauseGo = "not executable: " + err.Error()
+					}
+				}
+			}
+		}
+	}
+	var imps []string
+	for p, n := range g.imports {
+		imps = append(imps, fmt.Sprintf("\t%s %q", n, p))
+	}
+	sort.Strings(imps)
+	src := fmt.Sprintf("package %s\n\n// generated by govc from the solver model of obligation\n// %s\n\nimport (\n%s\n)\n\nfunc TestVerifReplay(t *testing.T) {\n%s}\n\n%s",
+		g.pkg.Name(), o.Name, strings.Join(imps, "\n"), body.String(), replayHelpers)
+	pkgDir := ""
+	if p := e.pkgs[g.pkg.Path()]; p != nil && len(p.GoFiles) > 0 {
+		pkgDir = filepath.Dir(p.GoFiles[0])
+	}
+	if pkgDir == "" {
+		return map[string]interface{}{"confirmed": false, "reason": "package directory unknown"}
+	}
+	testFile := filepath.Join(dir, fmt.Sprintf("%s.try%d_test.go", o.fileBase(), attempt))
+	os.WriteFile(testFile, []byte(src), 0o644)
+	ov := map[string]interface{}{"Replace": map[string]string{filepath.Join(pkgDir, "zz_verif_replay_test.go"): testFile}}
+	ovb, _ := json.Marshal(ov)
+	ovFile := filepath.Join(dir, fmt.Sprintf("%s.try%d.overlay.json", o.fileBase(), attempt))
+	os.WriteFile(ovFile, ovb, 0o644)
+	ctx, cancel := context.WithTimeout(context.Background(), 240*time.Second)
+	defer cancel()
+	cmd := exec.CommandContext(ctx, "go", "test", "-overlay", ovFile, "-vet=off", "-count=1", "-timeout", "60s", "-tags", "verif badger", "-run", "^TestVerifReplay$", "-v", ".")
+	cmd.Dir = pkgDir
+	cmd.Env = append(os.Environ(), "GOFLAGS=-mod=mod", "GOPROXY=off", "GOSUMDB=off", "GOTOOLCHAIN=local")
+	var out bytes.Buffer
+	cmd.Stdout = &out
+	cmd.Stderr = &out
+	cmd.Run()
+	text := out.String()
+	res := map[string]interface{}{"test_file": testFile, "inputs": inputs, "output": truncate(text, 4000), "clause_go": clauseGo,
+		"cmd": "cd " + pkgDir + " && go test -overlay " + ovFile + " -vet=off -count=1 -timeout 60s -tags 'verif badger' -run '^TestVerifReplay$' -v ."}
+	confirmed := false
+	switch o.Kind {
+	case "nopanic":
+		confirmed = strings.Contains(text, "VERIF-REPLAY-PANIC")
+	case "ensures":
+		confirmed = strings.Contains(text, "VERIF-REPLAY-ENSURES: false")
+		if strings.Contains(text, "VERIF-REPLAY-PANIC") {
+			res["note"] = "the real function panicked on the model input"
+			confirmed = true
+		}
+	}
+	res["confirmed"] = confirmed
+	return res
+}
+
+const replayHelpers = `
+func vBE(b []byte, i int, n int) uint64 {
+	var x uint64
+	for k := 0; k < n; k++ {
+		x = x<<8 | uint64(b[i+k])
+	}
+	return x
+}
+
+func vLE(b []byte, i int, n int) uint64 {
+	var x uint64
+	for k := n - 1; k >= 0; k-- {
+		x = x<<8 | uint64(b[i+k])
+	}
+	return x
+}
+
+func vRangeEq(a []byte, ai int, b []byte, bi int, n int) bool {
+	for k := 0; k < n; k++ {
+		if a[ai+k] != b[bi+k] {
+			return false
+		}
+	}
+	return true
+}
+
+func vSeqEq(a, b []byte) bool {
+	if len(a) != len(b) {
+		return false
+	}
+	for i := range a {
+		if a[i] != b[i] {
+			return false
+		}
+	}
+	return true
+}
+
+var _ = vBE
+var _ = vLE
+var _ = vRangeEq
+var _ = vSeqEq
+`
+
+// ---------- spec expression -> Go ----------
+
+type specCompiler struct {
+	g       *replayGen
+	fn      *ssa.Function
+	argName map[string]string
+	res     []string
+	bound   map[string]bool
+	subst   map[string]*SExpr
+}
+
+func (c *specCompiler) compile(x *SExpr, old bool) (string, error) {
+	switch x.Op {
+	case "int", "bool":
+		return x.Name, nil
+	case "nil":
+		return "nil", nil
+	case "str":
+		return fmt.Sprintf("%q", x.Name), nil
+	case "id":
+		if c.subst != nil {
+			if s, ok := c.subst[x.Name]; ok {
+				inner := *c
+				inner.subst = nil
+				return inner.compile(s, old)
+			}
+		}
+		if c.bound[x.Name] {
+			return "q_" + x.Name, nil
+		}
+		if a, ok := c.argName[x.Name]; ok {
+			if old {
+				return "old_" + a, nil
+			}
+			return a, nil
+		}
+		switch {
+		case x.Name == "result" && len(c.res) > 0:
+			return c.res[0], nil
+		case x.Name == "err" && len(c.res) > 0:
+			return c.res[len(c.res)-1], nil
+		case strings.HasPrefix(x.Name, "result"):
+			var k int
+			if _, err := fmt.Sscanf(x.Name, "result%d", &k); err == nil && k < len(c.res) {
+				return c.res[k], nil
+			}
+		}
+		// named results
+		rs := c.fn.Signature.Results()
+		for i := 0; i < rs.Len(); i++ {
+			if rs.At(i).Name() == x.Name {
+				return c.res[i], nil
+			}
+		}
+		if o := c.g.pkg.Scope().Lookup(x.Name); o != nil {
+			return x.Name, nil
+		}
+		return "", fmt.Errorf("identifier %s", x.Name)
+	case "un":
+		a, err := c.compile(x.Args[0], old)
+		if err != nil {
+			return "", err
+		}
+		return "(" + x.Name + a + ")", nil
+	case "bin":
+		a, err := c.compile(x.Args[0], old)
+		if err != nil {
+			return "", err
+		}
+		b, err := c.compile(x.Args[1], old)
+		if err != nil {
+			return "", err
+		}
+		switch x.Name {
+		case "==>":
+			return "(!(" + a + ") || (" + b + "))", nil
+		case "<==>":
+			return "((" + a + ") == (" + b + "))", nil
+		}
+		return "(" + a + " " + x.Name + " " + b + ")", nil
+	case "field":
+		if x.Args[0].Op == "id" {
+			if ip := findImport(c.g.pkg, x.Args[0].Name); ip != nil && ip != c.g.pkg {
+				if _, isArg := c.argName[x.Args[0].Name]; !isArg {
+					c.g.imports[ip.Path()] = ip.Name()
+					return ip.Name() + "." + x.Name, nil
+				}
+			}
+		}
+		if x.Name == "arr" || x.Name == "off" {
+			return "", fmt.Errorf("slice header facts are not executable")
+		}
+		a, err := c.compile(x.Args[0], old)
+		if err != nil {
+			return "", err
+		}
+		return a + "." + x.Name, nil
+	case "index":
+		a, err := c.compile(x.Args[0], old)
+		if err != nil {
+			return "", err
+		}
+		i, err := c.compile(x.Args[1], old)
+		if err != nil {
+			return "", err
+		}
+		return a + "[" + i + "]", nil
+	case "slice":
+		a, err := c.compile(x.Args[0], old)
+		if err != nil {
+			return "", err
+		}
+		lo, hi := "", ""
+		if x.Args[1] != nil {
+			if lo, err = c.compile(x.Args[1], old); err != nil {
+				return "", err
+			}
+		}
+		if x.Args[2] != nil {
+			if hi, err = c.compile(x.Args[2], old); err != nil {
+				return "", err
+			}
+		}
+		return a + "[" + lo + ":" + hi + "]", nil
+	case "forall", "exists":
+		return c.quant(x, old)
+	case "call":
+		return c.call(x, old)
+	}
+	return "", fmt.Errorf("cannot compile %s", x.String())
+}
+
+func conjuncts(x *SExpr) []*SExpr {
+	if x.Op == "bin" && x.Name == "&&" {
+		return append(conjuncts(x.Args[0]), conjuncts(x.Args[1])...)
+	}
+	return []*SExpr{x}
+}
+
+func (c *specCompiler) quant(x *SExpr, old bool) (string, error) {
+	if len(x.Vars) != 1 {
+		return "", fmt.Errorf("multi-variable quantifier")
+	}
+	v := x.Vars[0]
+	body := x.Args[0]
+	var guard *SExpr
+	if x.Op == "forall" && body.Op == "bin" && body.Name == "==>" {
+		guard = body.Args[0]
+	} else if x.Op == "exists" {
+		guard = body
+	}
+	if guard == nil {
+		return "", fmt.Errorf("quantifier without range guard")
+	}
+	var lo, hi string
+	nc := *c
+	nc.bound = map[string]bool{}
+	for k := range c.bound {
+		nc.bound[k] = true
+	}
+	for _, cj := range conjuncts(guard) {
+		if cj.Op != "bin" {
+			continue
+		}
+		l, r := cj.Args[0], cj.Args[1]
+		isV := func(e *SExpr) bool { return e.Op == "id" && e.Name == v.Name }
+		switch {
+		case cj.Name == "<=" && isV(r):
+			s, err := c.compile(l, old)
+			if err == nil {
+				lo = "int64(" + s + ")"
+			}
+		case cj.Name == ">=" && isV(l):
+			s, err := c.compile(r, old)
+			if err == nil {
+				lo = "int64(" + s + ")"
+			}
+		case cj.Name == "<" && isV(l):
+			s, err := c.compile(r, old)
+			if err == nil {
+				hi = "int64(" + s + ")"
+			}
+		case cj.Name == "<=" && isV(l):
+			s, err := c.compile(r, old)
+			if err == nil {
+				hi = "int64(" + s + ")+1"
+			}
+		case cj.Name == ">" && isV(r):
+			s, err := c.compile(l, old)
+			if err == nil {
+				hi = "int64(" + s + ")"
+			}
+		}
+	}
+	if lo == "" || hi == "" {
+		return "", fmt.Errorf("quantifier range not recognised")
+	}
+	nc.bound[v.Name] = true
+	b, err := nc.compile(body, old)
+	if err != nil {
+		return "", err
+	}
+	gt := v.Type
+	if t := resolveType(v.Type, c.g.pkg); t != nil {
+		gt = c.g.typeStr(t)
+	}
+	if x.Op == "forall" {
+		return fmt.Sprintf("func() bool { for qq := %s; qq < %s; qq++ { q_%s := %s(qq); if !(%s) { return false } }; return true }()", lo, hi, v.Name, gt, b), nil
+	}
+	return fmt.Sprintf("func() bool { for qq := %s; qq < %s; qq++ { q_%s := %s(qq); if %s { return true } }; return false }()", lo, hi, v.Name, gt, b), nil
+}
+
+func (c *specCompiler) call(x *SExpr, old bool) (string, error) {
+	args := func() ([]string, error) {
+		var out []string
+		for _, a := range x.Args {
+			s, err := c.compile(a, old)
+			if err != nil {
+				return nil, err
+			}
+			out = append(out, s)
+		}
+		return out, nil
+	}
+	switch x.Name {
+	case "old":
+		return c.compile(x.Args[0], true)
+	case "len", "cap":
+		a, err := args()
+		if err != nil {
+			return "", err
+		}
+		return x.Name + "(" + a[0] + ")", nil
+	case "fresh":
+		return "true", nil
+	case "ite":
+		a, err := args()
+		if err != nil {
+			return "", err
+		}
+		return fmt.Sprintf("func() interface{} { if %s { return %s }; return %s }()", a[0], a[1], a[2]), fmt.Errorf("ite not executable")
+	case "be16", "be32", "be64", "le16", "le32", "le64":
+		a, err := args()
+		if err != nil {
+			return "", err
+		}
+		n := map[string]int{"16": 2, "32": 4, "64": 8}[x.Name[2:]]
+		f := "vBE"
+		if x.Name[:2] == "le" {
+			f = "vLE"
+		}
+		return fmt.Sprintf("uint%d(%s([]byte(%s), int(%s), %d))", n*8, f, a[0], a[1], n), nil
+	case "rangeeq":
+		a, err := args()
+		if err != nil {
+			return "", err
+		}
+		return fmt.Sprintf("vRangeEq([]byte(%s), int(%s), []byte(%s), int(%s), int(%s))", a[0], a[1], a[2], a[3], a[4]), nil
+	case "seqeq":
+		a, err := args()
+		if err != nil {
+			return "", err
+		}
+		return fmt.Sprintf("vSeqEq([]byte(%s), []byte(%s))", a[0], a[1]), nil
+	}
+	if t := resolveType(x.Name, c.g.pkg); t != nil && len(x.Args) == 1 {
+		a, err := args()
+		if err != nil {
+			return "", err
+		}
+		return c.g.typeStr(t) + "(" + a[0] + ")", nil
+	}
+	if sf, ok := c.g.e.cs.Specs[x.Name]; ok && sf.Body != nil {
+		// macro expansion
+		nc := *c
+		nc.subst = map[string]*SExpr{}
+		if c.subst != nil {
+			return "", fmt.Errorf("nested spec function expansion")
+		}
+		for i, p := range sf.Params {
+			nc.subst[p.Name] = x.Args[i]
+		}
+		return nc.compile(sf.Body, old)
+	}
+	if x.Recv != nil {
+		r, err := c.compile(x.Recv, old)
+		if err != nil {
+			return "", err
+		}
+		a, err := args()
+		if err != nil {
+			return "", err
+		}
+		return r + "." + x.Name[strings.LastIndexByte(x.Name, '.')+1:] + "(" + strings.Join(a, ", ") + ")", nil
+	}
+	return "", fmt.Errorf("spec function %s is not executable", x.Name)
 }
